@@ -103,7 +103,7 @@ fn rand_cmds(rng: &mut Rng, nchildren: usize, len: u64, group: bool, nmembers: u
             } else if g < 85 {
                 cmds.push(json!(["reserve", rng.below(5)]));
             } else {
-                cmds.push(json!(["extend", 1 + rng.below(3)]));
+                cmds.push(json!(["extend", 1 + rng.below(3), rng.below(3)]));
             }
             continue;
         }
@@ -201,7 +201,7 @@ pub fn gen_vector(rng: &mut Rng, id: String, fam: &str, cont: &str, n: usize, pr
     };
     if group && rng.chance(12) {
         // the group is built by `FromIterator` (collect) instead of new / with_capacity
-        cmds.insert(0, json!(["fromiter", 1 + rng.below(4)]));
+        cmds.insert(0, json!(["fromiter", 1 + rng.below(4), rng.below(3)]));
     } else if group && profile != "mixed" {
         // make sure something is inserted
         cmds.insert(0, json!(["insert"]));
